@@ -51,6 +51,7 @@ FullPool == <<
   Call(VList(<<VHostile(1), VHostile(2), VInt(0)>>), <<>>, 29, SEach("list", SProbe("id"))), \* objects with a hostile __eq__ flow through by identity
   Call(L12, <<>>, 30, SDict(<< <<"last", SCoal(<<P("-1", <<"-1">>)>>, NoDefault)>>, <<"len", SCoal(<<P("2", <<"2">>)>>, Default(VNone))>>,
                             <<"first", P("0", <<"0">>)>> >>)),                              \* index boundaries: -1, exactly the length, 0
+  Call(VList(<<>>), <<>>, 31, SAcc("group", "inc")),                       \* a Group that aggregates nothing: a new empty result each time
   Call(T1, <<>>, 1, P("*", <<"*">>)),                                      \* star-sensitive
   Call(L5, <<>>, 4, SAcc("group", "inc")),                                 \* the same spec object on another target
   Call(T1, <<>>, 10, P("a.*", <<"a", "*">>)),                              \* star-sensitive, 2 segments
